@@ -44,6 +44,7 @@ type WebCfg struct {
 	SessionKey     string
 	SessionEncKey  string
 	VerifyClientIP bool
+	TemplateFile   string // Client.Defaults: an .rdp template the downloads start from
 }
 
 func init() {
@@ -84,6 +85,7 @@ func NewWebApp(c WebCfg) *WebApp {
 		HostSelection:    c.HostSelection,
 		RdpOpts:          web.RdpOpts{UsernameTemplate: c.UserTemplate, SplitUserDomain: c.SplitUser, NoUsername: c.NoUsername},
 		GatewayAddress:   gwURL,
+		TemplateFile:     c.TemplateFile,
 	}
 	w.PAATokenGenerator = security.GeneratePAAToken
 	if c.EnableUserTok {
